@@ -46,6 +46,15 @@ def _scaling_job(args) -> Obligation:
         if sorted((k, str(v)) for k, v in formula.items()) != before:
             return False
         props = []
+        # completeness under the symbolic threshold: a peak of the unpruned pattern is returned iff its abundance relative to the
+        # largest peak reaches the threshold (the unpruned pattern is computed once, concretely, by the same function)
+        ref = isotopic_distribution(dict(comp), min_abundance_threshold=0.0, use_neutron_count=use_n, distribution_abundance=1.0)
+        if not use_n or not out_m:
+            got_n = len(dist)
+            kept = 0
+            for _, rel in ref:
+                kept = kept + z3.If(th.t <= SR.T(rel), 1, 0)
+            props.append(kept == got_n)
         if not dist:
             return True       # everything pruned by the symbolic threshold: nothing to state (threshold <= 1 keeps the base peak, see below)
         masses = [m for m, _ in dist]
